@@ -570,6 +570,27 @@ def v8(prog: Program, chk: Check) -> None:
                 f"loop-carried: {why}; entries computed after a narrowing one silently stay NaN", e)
 
 
+# --------------------------------------------------------------------- V9
+def v9(prog: Program, chk: Check) -> None:
+    chk.rule("V9", "the system propagators behind the correlation dynamics are computed from the "
+             "time step of the current call: no memo (dict, lazily set attribute, closure "
+             "container) in the system classes leaves an argument of get_propagators / "
+             "get_unitary_propagators out of its key - otherwise a System used with a second dt "
+             "evolves with the first one while the returned axes follow the second", floor=1)
+    from rules.c20 import memo_findings
+    units = [u for u in prog.units_in("system") if not isinstance(u.node, ast.Lambda)]
+    n = 0
+    for (u, node, construct, missing) in memo_findings(prog, units):
+        n += 1
+        chk.saw(u)
+        chk.add("V9", u, construct, not missing,
+                "identified by everything it depends on" if not missing else
+                f"the stored value depends on {missing}, which is not part of the key / is not "
+                f"validated: axes and dynamics of a later call use different time steps", node)
+    chk.add("V9", prog.module("system"), f"{len(units)} functions of system.py scanned, {n} memo "
+            f"idiom(s)", len(units) >= 40, "" if len(units) >= 40 else "the module shrank")
+
+
 def run(prog: Program, chk: Check) -> None:
     chk.explanation = (
         "Decides the alignment bookkeeping of compute_correlations(_nt): V1 the time step that "
@@ -590,3 +611,4 @@ def run(prog: Program, chk: Check) -> None:
     chk.call(v5, prog, chk)
     chk.call(v6_v7, prog, chk)
     chk.call(v8, prog, chk)
+    chk.call(v9, prog, chk)
